@@ -349,7 +349,9 @@ class FloatEdit(NumEdit):
             if preserve_significance and isinstance(default, Decimal):
                 self.significance = default
 
-            val = str(default)
+            # plain positional notation with the widget's own separator (str() may give '1E+5' and always uses '.')
+            val = format(default, "f") if isinstance(default, Decimal) else str(default)
+            val = val.replace(".", self._decimal_separator)
 
         super().__init__(self.ALLOWED[0:10] + self._decimal_separator, caption, val, allow_negative=allow_negative)
 
